@@ -67,6 +67,8 @@ struct Model {
          Add(K_SUB, r, pats[p], 0, f, std::string("SETPARAMETERS SUBSCRIBE:") + pats[p] + (f ? " [v==1]" : ""), f ? "subscribe-filtered" : (p == 3 ? "subscribe-session-level" : "subscribe"));
       }
       Add(K_SUB, r, "x", 0, 0, "SETPARAMETERS SUBSCRIBE:x (relative path)", "subscribe-relative");   // normalised by the server to */*/x: a different spelling of /*/*/x
+      Add(K_SUB, r, "/*/*/s\\*t", 0, 0, "SETPARAMETERS SUBSCRIBE:/*/*/s\\*t (escaped star: the one node named s*t)", "subscribe-escaped-literal");
+      Add(K_SET, r, "s*t", 1, 0, "SETDATA s*t=v1 (a node name containing a metacharacter)", "setdata-metachar-name");
       Add(K_UNSUB_ALL, r, "", 0, 0, "REMOVEPARAMETERS SUBSCRIBE:*", "unsubscribe-all");
       Add(K_INS, r, "x", 2, 0, "INSERTORDEREDDATA x <- v2", "insert-ordered");
       Add(K_MSG, r, "/*/*/x", 0, 0, "Message to /*/*/x", "routed-message");
@@ -237,7 +239,7 @@ struct Model {
 static std::string Rule(const Model & m, int depth)
 {
    return verif::Fmt("every sequence of <=%d operations from a %d-operation alphabet from %d start states, each replayed on TWO fresh real ReflectServers in lock-step (one with X, one that X never connects to); "
-                     "alphabet: for each of A (/hA/1), X (/hA/2; /hX/2 alone on its host in one start state) and B (/hB/3): SETDATA x=v1|v2, x/y=v1, REMOVEDATA x | *, SUBSCRIBE: /*/*/x, /*/*/*, /*/*/x/* each with and without filter v==1, SUBSCRIBE:/*/* (session level), SUBSCRIBE:x (relative spelling), REMOVEPARAMETERS SUBSCRIBE:*, "
+                     "alphabet: for each of A (/hA/1), X (/hA/2; /hX/2 alone on its host in one start state) and B (/hB/3): SETDATA x=v1|v2, x/y=v1, REMOVEDATA x | *, SUBSCRIBE: /*/*/x, /*/*/*, /*/*/x/* each with and without filter v==1, SUBSCRIBE:/*/* (session level), SUBSCRIBE:x (relative spelling), SUBSCRIBE:/*/*/s\\*t (escaped literal) and SETDATA of a node named s*t, REMOVEPARAMETERS SUBSCRIBE:*, "
                      "INSERTORDEREDDATA under x, a routed Message to /*/*/x, a broadcast Message; X arrives; X leaves (enabled whenever X is present, so X leaves at every position of every history, and histories continue afterwards); "
                      "after every operation: with X absent Dump(server) == Dump(server without X) verbatim, no subscriber entry of X anywhere, X's session node (and its host node when X was alone on the host) gone, no mirror holds a node of X; with X present the dumps restricted to A and B (X's marks stripped) are equal; "
                      "what A and B are sent minus X-attributable content is identical in both servers (Message boundaries included) and so are their mirrors; states deduplicated on both canonical dumps + all four mirrors",
